@@ -41,6 +41,7 @@ ASSUMPTIONS.update({
     "axiom_no_nl_empty": "an empty byte range contains no newline",
     "axiom_no_nl_split": "newline-freeness of adjacent ranges composes",
     "axiom_line_mono": "line numbers are monotone in the byte offset",
+    "axiom_ws_empty": "an empty byte range is all-whitespace",
     "axiom_blen_bound": "a str is at most isize::MAX bytes long (Rust allocation limit)",
     "vs_len": "str::len is the byte length",
     "vs_slice_from": "&s[a..] panics unless a <= len and a is a char boundary; result is that sub-slice",
